@@ -1560,3 +1560,51 @@ mod tests {
         }
     }
 }
+
+#[cfg(feature = "verif-hooks")]
+impl FdlActiveStation {
+    /// Verification hook: snapshot of the private station state.
+    pub fn verif_probe(&self) -> crate::verif::FdlProbe {
+        let attempt = |a: &PassTokenAttempt| match a {
+            PassTokenAttempt::First => 1,
+            PassTokenAttempt::Second => 2,
+            PassTokenAttempt::Third => 3,
+        };
+        let (state, sub, awaiting) = match &self.state {
+            State::Offline => ("Offline", 0, None),
+            State::PassiveIdle => ("PassiveIdle", 0, None),
+            State::ListenToken { status_request, .. } => ("ListenToken", 0, *status_request),
+            State::ActiveIdle { status_request, .. } => ("ActiveIdle", 0, *status_request),
+            State::UseToken {
+                first_cycle_done, ..
+            } => ("UseToken", u8::from(*first_cycle_done), None),
+            State::ClaimToken { step } => match step {
+                ClaimTokenStep::FirstToken => ("ClaimToken", 1, None),
+                ClaimTokenStep::SecondToken => ("ClaimToken", 2, None),
+                ClaimTokenStep::Scan => ("ClaimToken", 3, None),
+                ClaimTokenStep::ScanAwaitResponse { address } => ("ClaimToken", 4, Some(*address)),
+            },
+            State::AwaitDataResponse { address, .. } => ("AwaitDataResponse", 0, Some(*address)),
+            State::PassToken { attempt: a, .. } => ("PassToken", attempt(a), None),
+            State::CheckTokenPass { attempt: a } => ("CheckTokenPass", attempt(a), None),
+            State::AwaitStatusResponse { address } => ("AwaitStatusResponse", 0, Some(*address)),
+        };
+        let (gap_poll_address, gap_wait_count) = match self.gap_state {
+            GapState::Waiting { rotation_count } => (None, Some(rotation_count)),
+            GapState::DoPoll { current_address } => (Some(current_address), None),
+        };
+        crate::verif::FdlProbe {
+            state,
+            sub,
+            awaiting,
+            have_token: self.state.have_token(),
+            gap_poll_address,
+            gap_wait_count,
+            last_token_time: self.last_token_time.total_micros(),
+            end_token_hold_time: self.end_token_hold_time.total_micros(),
+            next_application: self.next_application,
+            pending_bytes: self.pending_bytes,
+            last_bus_activity: self.last_bus_activity.map(|t| t.total_micros()),
+        }
+    }
+}
